@@ -1,20 +1,30 @@
 """C16 -- runs are reproducible from configuration and seed alone.
 
-Every case is one configuration (samplers of every built-in method, shared or not, several samplers,
-filters, estimators, masks, slsqp / l-bfgs-b / nelder-mead / differential_evolution with an explicit
-seed option).  It is run (a) in a fresh interpreter (reference), (b) in a second fresh interpreter with
-another PYTHONHASHSEED, and (c) in this process under a set of schedules: after other, different runs;
-with one PluginManager / OptimizerContext reused for all runs or new ones per run; with NumPy's legacy
-global generator reseeded and drawn from before the run, between evaluations and inside the evaluator.
-Every run is a real optimization of a few iterations through Plan / the optimizer step.
+Every case is one configuration (samplers of every built-in method, shared or not, one to three samplers,
+with or without explicit options, filters, estimators, masks, slsqp / l-bfgs-b / nelder-mead /
+differential_evolution with an explicit seed option) together with a WORKLOAD: an optimizer step followed by
+a gradient probe (so that every configuration, also the gradient-free ones, draws perturbations); an
+evaluator step before the optimizer step; optimizer step - evaluator step - the same optimizer step again
+(the two optimizer steps must be identical within the run); an outer optimization with a nested plan that
+shares the one configuration object.  The workload is run (a) in a fresh interpreter with another
+PYTHONHASHSEED (reference; this process runs with PYTHONHASHSEED=0) and once more in that interpreter, and
+(b) in this process under a set of schedules: after other, different runs (explicit sampler options where
+the run under test relies on defaults and vice versa, evaluator steps, merely constructed evaluators); with
+new or reused PluginManager / OptimizerContext / Plan + step objects / the same validated EnOptConfig
+object; with complete other runs executed INSIDE the evaluator of the run under test (same context); with
+NumPy's legacy global generator and the random_state of the scipy.stats distributions reseeded and drawn
+from before the run, between evaluations and inside the evaluator.
 
 Recorded per run: the byte-exact sequence of evaluator requests (variables, realizations, perturbation
-indices, active flags), evaluator results, FINISHED_EVALUATION results and the exit code (SHA-256 of the
-bytes; 60-bit prefixes go to Coq), and the number of touches of the global generator that did not come
-from the harness (wrapped np.random.* entry points, wrapped scipy check_random_state(None), and the
-fingerprint of the global generator's state at every evaluator entry / evaluation start / run end).
+indices, active flags), evaluator results, FINISHED_EVALUATION results, gradient-probe results and the exit
+codes (SHA-256 of the bytes; 60-bit prefixes go to Coq), and the number of touches that did not come from
+the harness: accesses of the generator-like state (wrapped np.random.* entry points, wrapped scipy
+check_random_state(None), fingerprints of mtrand._rand and of the distributions' random_state at every
+evaluator entry / evaluation start / run end) and writes of the table-like state (module-level containers
+and class attributes of every loaded ropt module, attributes of the cached plug-in instances, the
+configuration object: fingerprinted at run start and run end).
 Inside Coq the machine of Model/Rng.v is run on the recorded schedule and must give the observed trace,
-exit code and touch count (0).  A run with another seed must perturb differently.
+exit code, touch count (0) and unchanged tables.  A run with another seed must perturb differently.
 """
 from __future__ import annotations
 
@@ -34,30 +44,39 @@ CHK_MODULE = "Check.Chk_C16"
 CASE_TYPE = "Chk_C16.case"
 CHECK_FN = "Chk_C16.check_case"
 HEADER = "From Ropt Require Import Model.Rng."
-SHARD_SIZE = 12
+SHARD_SIZE = 8
 PARALLEL = True
 CASE_TIMEOUT = 300
 EXHAUSTIVE = {"quick": False, "thorough": False}
 
 RULE = ("per case one configuration drawn from: optimizer in {slsqp, l-bfgs-b, nelder-mead, differential_evolution(seed option)}; 2-4 "
-        "variables (optionally masked), 1-3 realizations, 2-4 perturbations; one or two samplers of every built-in method "
-        "(norm, uniform, truncnorm, sobol, halton, lhs; shared or not; assigned per variable); optional sort/cvar objective filter, "
-        "mean/stddev estimators, merged realizations, integer or tuple seeds.  Each configuration is run as a real optimization under "
-        "every schedule of the tier (fresh interpreter = reference; fresh interpreter with another PYTHONHASHSEED; in process: plain, after "
-        "other different runs with new / reused PluginManager / reused OptimizerContext, global generator reseeded and drawn from "
-        "before the run, at every evaluation start and inside every evaluator call) and once more with another seed.  "
-        "Non-trivial = the reference made at least 3 evaluator calls and at least 4 schedules were compared; distinct = distinct configurations.")
+        "variables (optionally masked), 1-3 realizations, 2-4 perturbations; one to three samplers of every built-in method "
+        "(norm, uniform, truncnorm, sobol, halton, lhs; shared or not; assigned per variable, possibly with -1 and with an unused "
+        "sampler; with explicit options for half of the stats samplers); optional sort/cvar objective filter, "
+        "mean/stddev estimators, merged realizations, integer or tuple seeds; and one workload of {optimizer step + gradient probe, "
+        "evaluator step first, optimizer-evaluator-same optimizer step again, nested plan sharing the configuration object}.  The first "
+        "40 configurations enumerate methods x sampler methods x workloads systematically.  Each configuration is run "
+        "under every schedule of the tier (fresh interpreter with another PYTHONHASHSEED = reference, and a second run in it; in "
+        "process: plain, after other different runs with new / reused PluginManager / reused OptimizerContext, the same EnOptConfig "
+        "object run before, the same Plan and step objects run before, an evaluator step and an unused EnsembleEvaluator on the same "
+        "configuration object before, complete other runs inside the evaluator, generator-like state (np.random, scipy.stats "
+        "distributions) reseeded and drawn from before the run, at every evaluation start and inside every evaluator call) and once more "
+        "with another seed.  Non-trivial = the reference made at least 3 evaluator calls of which at least 2 perturbed, and at least 8 "
+        "schedules were compared; distinct = distinct configurations.")
 ASSUMPTIONS = [
     "the evaluator supplied by the harness is a deterministic function of the request (checked: the replay machine reproduces the reference)",
     "population optimizers are given an explicit seed option (property quantifier)",
     "equality of SHA-256 digests is equality of byte strings; Coq compares 60-bit prefixes, the Python oracle the full digests",
-    "foreign activity is represented by np.random.seed(j) and np.random.random(n) calls at the three kinds of schedule points",
+    "foreign activity is represented by np.random.seed(j), np.random.random(n), <distribution>.random_state = RandomState(j) and complete other "
+    "optimizations, at the three kinds of schedule points",
 ]
 TRUSTED = [
-    "the run-time monitor (wrappers around the 48 legacy np.random entry points and scipy's check_random_state, plus state fingerprints of "
-    "numpy.random.mtrand._rand) sees every read or write of NumPy's legacy global generator made during a run",
-    "state hidden in CPython / NumPy / SciPy / LAPACK other than the legacy global generator is outside the Coq model (PARTIAL); it is "
-    "exercised only through the schedules (fresh interpreters, other hash seed, preceding runs, reused objects)",
+    "the run-time monitor sees every access of the generator-like state made during a run (wrappers around the legacy np.random entry points and "
+    "scipy's check_random_state, state fingerprints of numpy.random.mtrand._rand and of scipy.stats uniform/norm/truncnorm.random_state) and every "
+    "write of the table-like state that survives to the end of the run (fingerprints of module-level containers and class attributes of all loaded "
+    "ropt modules, of the attributes of the cached plug-in instances and of the configuration object)",
+    "state hidden in CPython / NumPy / SciPy / LAPACK outside these fingerprints is outside the Coq model (PARTIAL); it is "
+    "exercised only through the schedules (fresh interpreter, other hash seed, preceding and interleaved runs, reused objects)",
 ]
 
 # explicit sampler options (valid SciPy arguments) - "other runs" use them while the run under test relies on the
@@ -73,33 +92,46 @@ SAMPLER_OPTIONS = {
 }
 METHODS = ["slsqp", "l-bfgs-b", "nelder-mead", "differential_evolution"]
 SAMPLERS = ["norm", "uniform", "truncnorm", "sobol", "halton", "lhs"]
+WORKLOADS = ["single", "eval-opt", "opt-eval-opt", "nested"]
 HARNESS_DIR = os.path.dirname(os.path.dirname(os.path.abspath(__file__)))
+N_QUICK, N_THOROUGH = 40, 240
 
 
 # ---- generators -----------------------------------------------------------------------------------
 def _rand_spec(rng, k):
-    method = METHODS[k % 4] if k < 8 else rng.choice(METHODS + ["slsqp", "l-bfgs-b"])
+    """k < 40 enumerates: optimizer method = k mod 4, first sampler method = k mod 6 (coprime cycles visit every pair within 12),
+    workload = (k div 4) mod 4 shifted so that every method meets every workload, number of samplers 1/2/3 by k mod 5."""
+    systematic = k < 40
+    method = METHODS[k % 4] if systematic else rng.choice(METHODS + ["slsqp", "l-bfgs-b"])
+    workload = WORKLOADS[(k // 4 + k) % 4] if systematic else rng.choice(WORKLOADS + ["single"])
     nvar = rng.randint(2, 4)
     nreal = rng.randint(1, 3)
-    nsam = rng.choice([1, 1, 2])
-    samplers = [{"method": SAMPLERS[(k + i * 3) % 6] if k < 12 else rng.choice(SAMPLERS), "shared": rng.random() < 0.4}
+    nsam = [1, 2, 1, 3, 2][k % 5] if systematic else rng.choice([1, 1, 2, 3])
+    if nsam == 3:
+        nvar = max(nvar, 3)
+    samplers = [{"method": SAMPLERS[(k + i * (1 + k // 6)) % 6] if systematic else rng.choice(SAMPLERS), "shared": rng.random() < 0.4}
                 for i in range(nsam)]
     for i, smp in enumerate(samplers):
-        if rng.random() < 0.25:
+        # explicit options: half of the stats samplers (their defaults are the region where options of other runs can leak), a
+        # quarter of the others
+        if rng.random() < (0.5 if smp["method"] in ("uniform", "truncnorm", "norm") else 0.25):
             smp["options"] = SAMPLER_OPTIONS[smp["method"]][(k + i) % 2]
     idx = None
-    if nsam == 2:
-        idx = [rng.randrange(2) for _ in range(nvar)]
-        idx[0], idx[-1] = 1, 0          # both used; sampler 1 appears first
-        if rng.random() < 0.3:
-            idx[rng.randrange(1, nvar)] = -1 if nvar > 2 else idx[1]
-            idx[0], idx[-1] = 1, 0
+    if nsam >= 2:
+        used = list(range(nsam))
+        if nsam == 3 and rng.random() < 0.4:
+            used.remove(rng.choice([0, 1]))     # a sampler that is configured but has no variable, before one in use
+        idx = [rng.choice(used) for _ in range(nvar)]
+        order = list(reversed(used))            # the highest index appears first: calling order is not the sorted order
+        idx[:len(order)] = order
+        if rng.random() < 0.3 and nvar > len(order):
+            idx[rng.randrange(len(order), nvar)] = -1
     mask = None
     if rng.random() < 0.3:
         mask = [True] * nvar
         mask[rng.randrange(nvar)] = False
     spec = {
-        "method": method, "nvar": nvar, "nreal": nreal, "npert": rng.randint(2, 4),
+        "method": method, "workload": workload, "nvar": nvar, "nreal": nreal, "npert": rng.randint(2, 4),
         "seed": rng.choice([rng.randrange(1, 10 ** 6), [rng.randrange(1, 100), rng.randrange(1, 100)]]),
         "samplers": samplers, "sampler_idx": idx, "mask": mask,
         "filter": rng.choice([None, None, "sort-objective", "cvar-objective"]) if nreal == 3 else None,
@@ -113,16 +145,21 @@ def _rand_spec(rng, k):
         spec["merge"] = False
     if method == "differential_evolution":
         spec["max_functions"] = rng.choice([12, 20])
+    if workload == "nested":
+        spec["max_functions"] = 8 if method == "differential_evolution" else 3
+        spec["mask"] = None
     return spec
 
 
 def _variant(spec, i):
-    """A different configuration, used as 'another optimization executed earlier in the same process'."""
+    """A different configuration, used as 'another optimization executed earlier (or meanwhile) in the same process'."""
     v = json.loads(json.dumps(spec))
     v["seed"] = 7000 + i if i % 2 == 0 else spec["seed"]
-    v["samplers"] = [{"method": SAMPLERS[(SAMPLERS.index(s["method"]) + 1 + i) % 6], "shared": not s["shared"]}
-                     for s in spec["samplers"]]
+    v["workload"] = "eval-opt" if i % 3 == 2 else "single"
     if i % 2 == 1:
+        # other optimizer, other sampler methods (incl. a sampler that is only constructed), SAME seed
+        v["samplers"] = [{"method": SAMPLERS[(SAMPLERS.index(s["method"]) + 1 + i) % 6], "shared": not s["shared"]}
+                         for s in spec["samplers"]]
         v["method"] = METHODS[(METHODS.index(spec["method"]) + 1) % 4]
         v["constraint"] = False
         v["max_functions"] = 12 if v["method"] == "differential_evolution" else 5
@@ -132,44 +169,138 @@ def _variant(spec, i):
         v["samplers"] = [({"method": x["method"], "shared": x["shared"]} if "options" in x else
                           {"method": x["method"], "shared": x["shared"], "options": SAMPLER_OPTIONS[x["method"]][(i // 2) % 2]})
                          for x in spec["samplers"]]
+        if v["method"] == "differential_evolution":
+            v["max_functions"] = 12
+        elif spec["workload"] == "nested":
+            v["max_functions"] = 5
     return v
 
 
+def _sched(name, reuse="fresh", others=0, pre=(), between=(), inside=(), interleave=()):
+    return {"name": name, "reuse": reuse, "others": others, "pre": list(pre), "between": list(between), "inside": list(inside),
+            "interleave": list(interleave)}
+
+
 def _schedules(tier, rng):
+    r = rng.randrange
     s = [
-        {"name": "inproc-plain", "reuse": "fresh", "others": 0, "pre": [], "between": [], "inside": []},
-        {"name": "after-others-new-objects", "reuse": "fresh", "others": 2, "pre": [], "between": [], "inside": []},
-        {"name": "after-others-reused-manager", "reuse": "manager", "others": 2, "pre": [], "between": [], "inside": []},
-        {"name": "after-others-reused-context", "reuse": "context", "others": 2, "pre": [], "between": [], "inside": []},
+        _sched("inproc-plain"),
+        _sched("after-others-new-objects", "fresh", 2),
+        _sched("after-others-reused-manager", "manager", 2),
+        _sched("after-others-reused-context", "context", 3),
         # the SAME validated EnOptConfig object (and context) is run once before: a second run of one configuration
         # object must not continue any state of the first
-        {"name": "same-config-object-run-again", "reuse": "config", "others": 1, "pre": [], "between": [], "inside": []},
-        {"name": "reseed-before", "reuse": "fresh", "others": 0, "pre": [rng.randrange(1000), -3], "between": [], "inside": []},
-        {"name": "reseed-between-and-inside", "reuse": "fresh", "others": 0, "pre": [rng.randrange(1000)],
-         "between": [rng.randrange(1000), -2], "inside": [-1, rng.randrange(1000), -5]},
+        _sched("same-config-object-run-again", "config", 1),
+        # the same Plan and the same step objects (and configuration object) are run once before
+        _sched("same-plan-and-steps-run-again", "plan", 1),
+        # an evaluator step and a merely constructed EnsembleEvaluator on the same configuration object come first
+        _sched("evaluator-step-and-unused-evaluator-first", "config-eval", 1),
+        # complete other optimizations run inside the evaluator of the run under test (same context and manager)
+        _sched("other-runs-inside-evaluator", "context", 1, interleave=[1, 2]),
+        _sched("reseed-before", "fresh", 0, pre=[r(1000), -3, 1000 + r(1000)]),
+        _sched("reseed-between-and-inside", "fresh", 0, pre=[r(1000)], between=[r(1000), -2, 1000 + r(1000)],
+               inside=[-1, r(1000), -5, 1000 + r(1000)]),
     ]
     if tier == "thorough":
         s += [
-            {"name": "same-seed-everywhere", "reuse": "fresh", "others": 0, "pre": [5], "between": [5], "inside": [5]},
-            {"name": "draws-only", "reuse": "fresh", "others": 0, "pre": [-7], "between": [-1], "inside": [-2]},
-            {"name": "after-others-reused-context-reseeded", "reuse": "context", "others": 3, "pre": [rng.randrange(1000)],
-             "between": [-1], "inside": [rng.randrange(1000)]},
-            {"name": "after-others-reused-manager-reseeded", "reuse": "manager", "others": 3, "pre": [-2],
-             "between": [rng.randrange(1000)], "inside": [-3]},
+            _sched("same-seed-everywhere", "fresh", 0, pre=[5, 1005], between=[5], inside=[5, 1005]),
+            _sched("draws-only", "fresh", 0, pre=[-7], between=[-1], inside=[-2]),
+            _sched("after-others-reused-context-reseeded", "context", 3, pre=[r(1000)], between=[-1], inside=[1000 + r(1000)]),
+            _sched("after-others-reused-manager-reseeded", "manager", 3, pre=[-2], between=[r(1000)], inside=[-3]),
+            _sched("other-runs-inside-evaluator-every-call", "manager", 0, interleave=[0, 1, 2, 3, 4], inside=[r(1000)]),
+            _sched("same-plan-after-others", "plan", 3, pre=[1000 + r(1000)]),
         ]
     return s
 
 
 def gen_cases(tier, rng):
-    n = 24 if tier == "quick" else 160
+    n = N_QUICK if tier == "quick" else N_THOROUGH
     for k in range(n):
         yield {"spec": _rand_spec(rng, k), "schedules": _schedules(tier, rng), "hashseed": rng.randrange(1, 2 ** 31),
                "subprocess": True}
 
 
-# ---- the run-time monitor of NumPy's legacy global generator ---------------------------------------
+# ---- the run-time monitor of the process-persistent state ------------------------------------------
+def _table_digest(obj, depth=0):
+    """Stable description of a piece of table-like state.  Values by content (primitives, containers, arrays, generators,
+    objects of ropt classes), everything else by type and identity."""
+    import numpy as np
+    if obj is None or isinstance(obj, (bool, int, float, str, bytes)):
+        return repr(obj)
+    if isinstance(obj, (np.random.Generator, np.random.RandomState)):
+        st = obj.bit_generator.state if isinstance(obj, np.random.Generator) else obj.get_state(legacy=False)
+        return "rng:" + hashlib.sha256(repr(st).encode()).hexdigest()[:16]
+    if isinstance(obj, np.ndarray):
+        return f"arr{obj.dtype}{obj.shape}:" + hashlib.sha256(np.ascontiguousarray(obj).tobytes()).hexdigest()[:16]
+    if isinstance(obj, (np.generic,)):
+        return repr(obj.item())
+    if depth > 5:
+        return f"{type(obj).__module__}.{type(obj).__qualname__}@{id(obj)}"
+    if isinstance(obj, (list, tuple)):
+        return type(obj).__name__ + "[" + ",".join(_table_digest(x, depth + 1) for x in obj) + "]"
+    if isinstance(obj, (set, frozenset)):
+        return "set{" + ",".join(sorted(_table_digest(x, depth + 1) for x in obj)) + "}"
+    if isinstance(obj, dict):
+        return "dict{" + ",".join(sorted(f"{k!r}:" + _table_digest(v, depth + 1) for k, v in obj.items())) + "}"
+    cls = type(obj)
+    if (cls.__module__ or "").startswith("ropt.") and hasattr(obj, "__dict__") and not isinstance(obj, type):
+        extra = getattr(obj, "__pydantic_private__", None)
+        return (f"{cls.__module__}.{cls.__qualname__}(" + _table_digest(dict(vars(obj)), depth + 1) +
+                ("|" + _table_digest(extra, depth + 1) if extra else "") + ")")
+    return f"{cls.__module__}.{cls.__qualname__}@{id(obj)}"
+
+
+_SKIP_TYPES = None
+
+
+def _class_cells(cls, prefix, cells):
+    import functools
+    import types
+    global _SKIP_TYPES
+    if _SKIP_TYPES is None:
+        _SKIP_TYPES = (types.FunctionType, types.BuiltinFunctionType, types.MethodType, classmethod, staticmethod, property,
+                       functools.cached_property, types.MemberDescriptorType, types.GetSetDescriptorType, type)
+    for name, val in list(vars(cls).items()):
+        if name.startswith("__") or name in ("_abc_impl",) or isinstance(val, _SKIP_TYPES):
+            continue
+        cells[f"{prefix}.{name}"] = _table_digest(val, 2)
+    # the SET of attribute names (a run that adds a class attribute is a writer, whatever the value)
+    cells[prefix + ".<names>"] = ",".join(sorted(n for n in vars(cls) if not n.startswith("__")))
+
+
+def _table_cells(config=None):
+    """cell name -> digest for: module-level containers and class attributes of every loaded ropt module, attributes of the
+    plug-in instances every PluginManager shares, the configuration object."""
+    import types
+    cells = {}
+    for modname, mod in sorted(sys.modules.items()):
+        if mod is None or not (modname == "ropt" or modname.startswith("ropt.")):
+            continue
+        for name, val in list(vars(mod).items()):
+            if name.startswith("__"):
+                continue
+            if isinstance(val, (dict, list, set)):
+                cells[f"{modname}:{name}"] = _table_digest(val, 1)
+            elif isinstance(val, type) and getattr(val, "__module__", None) == modname:
+                _class_cells(val, f"{modname}:{val.__qualname__}", cells)
+        cells[f"{modname}:<names>"] = ",".join(sorted(n for n, v in vars(mod).items()
+                                                        if not n.startswith("__") and not isinstance(v, types.ModuleType)))
+    try:
+        from ropt.plugins import PluginManager
+        pm = PluginManager()
+        for ptype in ("optimizer", "sampler", "realization_filter", "function_estimator", "plan_handler", "plan_step"):
+            for name, plugin in pm.plugins(ptype):
+                cells[f"plugin:{ptype}/{name}"] = f"{type(plugin).__qualname__}@{id(plugin)}:" + _table_digest(dict(vars(plugin)), 1)
+    except Exception as e:  # noqa: BLE001
+        cells["plugin:<error>"] = type(e).__name__
+    if config is not None:
+        cells["config-object"] = _table_digest(config, 0)
+    return cells
+
+
 class _Monitor:
-    """Counts reads/writes of numpy.random.mtrand._rand that were not made by the harness itself."""
+    """Counts accesses of the generator-like state (numpy.random.mtrand._rand, scipy.stats distribution random_state) and
+    writes of the table-like state that were not made by the harness itself."""
 
     instance = None
 
@@ -181,12 +312,17 @@ class _Monitor:
         self.foreign = 0
         self.active = False
         self.expected = None
+        self.tables = None
+        self.last_tables = None
+        self.watch_tables = True
         self.wrapped_crs = set()
         names = [n for n in dir(np.random.RandomState) if not n.startswith("_") and hasattr(np.random, n)]
         self.entry_points = len(names)
         for n in names:
             setattr(np.random, n, self._wrap(n, getattr(np.random, n)))
         self._wrap_check_random_state()
+        from scipy.stats import norm, truncnorm, uniform
+        self.dists = {"uniform": uniform, "norm": norm, "truncnorm": truncnorm}
 
     @classmethod
     def get(cls):
@@ -226,46 +362,91 @@ class _Monitor:
                     setattr(mod, "check_random_state", check_random_state)
                     self.wrapped_crs.add(name)
 
-    def fingerprint(self):
-        st = self.rand.get_state(legacy=False)
+    def _state(self, rs):
+        st = rs.get_state(legacy=False)
         h = hashlib.sha256()
         h.update(st["state"]["key"].tobytes())
         h.update(repr((st["state"]["pos"], st["has_gauss"], float(st["gauss"]).hex())).encode())
         return h.hexdigest()
 
-    def start(self):
+    def fingerprint(self):
+        parts = [self._state(self.rand)]
+        for name, d in self.dists.items():
+            rs = d.random_state
+            if rs is self.rand:
+                parts.append(name + "=global")
+            elif isinstance(rs, self.np.random.RandomState):
+                parts.append(name + "=" + self._state(rs))
+            else:
+                parts.append(name + "=" + _table_digest(rs))
+        return "|".join(parts)
+
+    def start(self, config=None, tables=True):
         self._wrap_check_random_state()
         self.touches = []
+        self.config = config
+        self.watch_tables = tables
+        if tables:
+            with self.as_foreign():
+                # the table state at the end of the previous monitored run is the state this run starts from (nothing but
+                # harness code ran in between, and whatever ropt did there is attributed to this run); only the
+                # configuration object is new
+                if self.last_tables is None:
+                    self.last_tables = _table_cells(None)
+                self.tables = dict(self.last_tables)
+                self.tables.pop("config-object", None)
+                if config is not None:
+                    self.tables["config-object"] = _table_digest(config, 0)
         self.active = True
         self.expected = self.fingerprint()
 
     def check(self, where):
         fp = self.fingerprint()
         if fp != self.expected:
-            self.touches.append("state-changed-before-" + where)
+            self.touches.append("generator-state-changed-before-" + where)
             self.expected = fp
 
     def stop(self):
         self.check("run-end")
         self.active = False
+        if self.watch_tables:
+            with self.as_foreign(refresh=False):
+                after = _table_cells(self.config)
+            before = self.tables
+            mods_before = {k.split(":", 1)[0] for k in before}
+            for k in sorted(set(before) | set(after)):
+                if k.split(":", 1)[0] not in mods_before and ":" in k:
+                    continue                         # a module imported during the run: its initial state, not a write
+                if before.get(k) != after.get(k):
+                    self.touches.append("table-written:" + k)
+            self.last_tables = after
+            self.tables = None
         return list(self.touches)
 
     @contextlib.contextmanager
-    def as_foreign(self):
+    def as_foreign(self, refresh=True):
         self.foreign += 1
         try:
             yield
         finally:
             self.foreign -= 1
-            self.expected = self.fingerprint()
+            if refresh:
+                self.expected = self.fingerprint()
 
     def do_foreign(self, ops, shift):
-        """ops: j >= 0 -> np.random.seed(j + shift); j < 0 -> np.random.random(-j).  Returns the ops performed."""
+        """ops: 0 <= j < 1000 -> np.random.seed(j + shift); j >= 1000 -> every scipy.stats distribution used by ropt gets
+        random_state = RandomState(j + shift); j < 0 -> np.random.random(-j).  Returns the ops performed."""
         done = []
         np = self.np
+        if not ops:
+            return done
         with self.as_foreign():
             for j in ops:
-                if j >= 0:
+                if j >= 1000:
+                    for d in self.dists.values():
+                        d.random_state = np.random.RandomState(j + shift)
+                    done.append(j + shift)
+                elif j >= 0:
                     np.random.seed(j + shift)
                     done.append(j + shift)
                 else:
@@ -388,6 +569,14 @@ class _Session:
         self.context.add_observer(EventType.FINISHED_EVALUATION, lambda e: self.run.on_finished(e))
 
 
+def _validated(spec):
+    import warnings
+    from ropt.config.enopt import EnOptConfig
+    with warnings.catch_warnings():
+        warnings.simplefilter("ignore")
+        return EnOptConfig.model_validate(_config(spec))
+
+
 class _Run:
     def __init__(self, spec, sched, mon):
         self.spec, self.sched, self.mon = spec, sched, mon
@@ -395,6 +584,8 @@ class _Run:
         self.pert = None
         self.calls = 0
         self.events = 0
+        self.marks = []
+        self.session = None
 
     def on_start(self, event):
         self.mon.check("evaluation-start")
@@ -404,6 +595,14 @@ class _Run:
         import numpy as np
         self.mon.check("evaluator-entry")
         inside = self.mon.do_foreign(self.sched["inside"], 3 * self.calls)
+        if self.calls in self.sched.get("interleave", ()):
+            # a complete other optimization inside this evaluator call, through the same context and manager
+            i = self.sched["interleave"].index(self.calls)
+            other = _Run(_variant(self.spec, i), _QUIET, self.mon)
+            with self.mon.as_foreign():
+                other.execute(self.session, nested=True)
+            self.session.run = self
+            inside = inside + [-100 - i]
         self.micro += [self.pending, inside]
         self.pending = []
         self.calls += 1
@@ -411,7 +610,7 @@ class _Run:
         req = _digest(variables, ctx.realizations, ctx.perturbations, ctx.active_objectives, ctx.active_constraints)
         if perturbed and self.pert is None:
             self.pert = _digest(variables[np.asarray(ctx.perturbations) >= 0])
-        with self.mon.as_foreign():      # the user's evaluator may do anything; ours is pure NumPy arithmetic
+        with self.mon.as_foreign(refresh=False):      # the user's evaluator may do anything; ours is pure NumPy arithmetic
             result = _evaluate(variables, ctx)
         self.entries.append(["C", perturbed, req, _digest(result.objectives, result.constraints)])
         return result
@@ -419,65 +618,160 @@ class _Run:
     def on_finished(self, event):
         self.mon.check("evaluation-end")
         if "results" in event.data:
-            self.entries.append(["R", False, _digest("results-event", self.events), _digest(list(event.data["results"]))])
-            self.micro += [[], []]
-            self.events += 1
+            self._result("results-event", list(event.data["results"]))
 
-    def execute(self, session, config=None):
-        import warnings
-        from ropt.config.enopt import EnOptConfig
+    def _result(self, kind, payload):
+        # the request digest of a results entry is its position (unique within the run: the replay machine's evaluator is a table)
+        self.entries.append(["R", False, _digest(kind, self.events), _digest(payload)])
+        self.micro += [[], []]
+        self.events += 1
+
+    def _mark(self):
+        self.marks.append(len(self.entries))
+
+    # -- the workload ---------------------------------------------------------------------------------
+    def _workload(self, session, config, bundle):
+        import numpy as np
+        from ropt.ensemble_evaluator import EnsembleEvaluator
         from ropt.plan import Plan
+        from ropt.results import FunctionResults
+        kind = self.spec.get("workload", "single")
+        plan = bundle.setdefault("plan", None) or Plan(session.context)
+        bundle["plan"] = plan
+
+        def step(name, kind_):
+            if name not in bundle:
+                bundle[name] = plan.add_step(kind_)
+            return bundle[name]
+
+        codes = []
+        x0 = np.array(self.spec["start"], dtype=np.float64)
+        if kind == "nested":
+            # (the inner plan and its tracker are created per run: a tracker is meant to remember the best result of
+            # everything its plan ran, which is state of the caller's plan, not of ropt)
+            inner = Plan(session.context)
+            istep = inner.add_step("optimizer")
+            itrack = inner.add_handler("tracker", sources={istep})
+
+            def inner_function(plan_, variables):
+                plan_.run_step(istep, config=bundle["config"], variables=variables)
+                res = inner.get(itrack, "results")
+                return res if isinstance(res, FunctionResults) else None
+            inner.add_function(inner_function)
+            bundle["inner"] = inner
+            bundle["config"] = config            # outer and inner share the ONE configuration object
+            self._mark()
+            codes.append(plan.run_step(step("opt", "optimizer"), config=config, nested_optimization=bundle["inner"]))
+        else:
+            if kind == "eval-opt":
+                self._mark()
+                codes.append(plan.run_step(step("eval", "evaluator"), config=config))
+            self._mark()
+            codes.append(plan.run_step(step("opt", "optimizer"), config=config))
+            if kind == "opt-eval-opt":
+                self._mark()
+                codes.append(plan.run_step(step("eval", "evaluator"), config=config, variables=np.vstack([x0 + 0.125, x0 - 0.125])))
+                self._mark()
+                codes.append(plan.run_step(step("opt", "optimizer"), config=config))     # the same step object again
+        # gradient probe: every configuration draws perturbations (function+gradient request, then a function request
+        # followed by the gradient-only request that re-uses the cached function result) on one EnsembleEvaluator
+        self._mark()
+        if not plan.aborted:
+            ee = EnsembleEvaluator(config, None, session.context.evaluator, session.manager)
+            x1 = x0 + 0.0625
+            for i, req in enumerate(((x0, True, True), (x1, True, False), (x1, False, True))):
+                self.on_start(None)
+                res = ee.calculate(req[0].copy(), compute_functions=req[1], compute_gradients=req[2])
+                self.mon.check("probe-end")
+                self._result("probe", list(res))
+        self._mark()
+        return codes
+
+    def execute(self, session, config=None, bundle=None, nested=False):
+        watch = self.sched is not _QUIET and self.sched.get("name") != "quiet"
+        import warnings
         warnings.simplefilter("ignore")
         mon = self.mon
+        prev = session.run
         session.run = self
-        mon.start()
+        self.session = session
+        if config is None:
+            with mon.as_foreign() if nested or mon.active else contextlib.nullcontext():
+                config = _validated(self.spec)
+        if not nested:
+            mon.start(config, tables=watch)
+        codes = []
         try:
-            self.pending += mon.do_foreign(self.sched["pre"], 0)
-            plan = Plan(session.context)
-            step = plan.add_step("optimizer")
-            code = plan.run_step(step, config=EnOptConfig.model_validate(_config(self.spec)) if config is None else config)
+            if not nested:
+                self.pending += mon.do_foreign(self.sched["pre"], 0)
+            codes = self._workload(session, config, {} if bundle is None else bundle)
         finally:
-            touches = mon.stop()
-            session.run = None
-        return {"name": self.sched["name"], "entries": self.entries, "micro": self.micro,
-                "exit": int(getattr(code, "value", -1)), "exit_name": getattr(code, "name", str(code)),
+            touches = [] if nested else mon.stop()
+            session.run = prev
+        code = codes[-1] if codes else None
+        return {"name": self.sched["name"], "entries": self.entries, "micro": self.micro, "marks": self.marks,
+                "exit": sum(int(getattr(c, "value", 99)) * 100 ** k for k, c in enumerate(codes)),
+                "exit_name": "+".join(getattr(c, "name", str(c)) for c in codes),
                 "touches": len(touches), "touch_names": sorted(set(touches))[:6], "pert": self.pert}
 
 
-_QUIET = {"name": "quiet", "reuse": "fresh", "others": 0, "pre": [], "between": [], "inside": []}
+_QUIET = {"name": "quiet", "reuse": "fresh", "others": 0, "pre": [], "between": [], "inside": [], "interleave": []}
 
 
 def _run_schedule(spec, sched, mon):
+    from ropt.ensemble_evaluator import EnsembleEvaluator
     session = _Session()
     manager = session.manager
     quiet = dict(_QUIET, pre=sched["pre"][:1])
-    if sched["reuse"] == "config":
-        import warnings
-        from ropt.config.enopt import EnOptConfig
-        warnings.simplefilter("ignore")
-        shared = EnOptConfig.model_validate(_config(spec))
+    reuse = sched["reuse"]
+    if reuse in ("config", "plan", "config-eval"):
+        shared = _validated(spec)
+        bundle = {} if reuse == "plan" else None
         for i in range(sched["others"]):
-            _Run(spec, quiet, mon).execute(session, shared)
-        return _Run(spec, sched, mon).execute(session, shared)
+            if reuse == "config-eval":
+                # an evaluator step on the same configuration object, and an evaluator that is constructed but never used
+                _Run(dict(spec, workload="eval-only"), quiet, mon).execute_eval_only(session, shared)
+                EnsembleEvaluator(shared, None, session.context.evaluator, manager)
+            else:
+                _Run(spec, quiet, mon).execute(session, shared, bundle)
+        for i in range(max(0, sched["others"] - 1)):      # (thorough) further, different runs through the same context
+            _Run(_variant(spec, i), quiet, mon).execute(session)
+        return _Run(spec, sched, mon).execute(session, shared, bundle)
     for i in range(sched["others"]):
-        if sched["reuse"] == "fresh":
+        if reuse == "fresh":
             session = _Session()
-        elif sched["reuse"] == "manager":
+        elif reuse == "manager":
             session = _Session(manager)
         _Run(_variant(spec, i), quiet, mon).execute(session)
-    if sched["reuse"] == "fresh":
+    if reuse == "fresh":
         session = _Session()
-    elif sched["reuse"] == "manager":
+    elif reuse == "manager":
         session = _Session(manager)
     return _Run(spec, sched, mon).execute(session)
 
 
+def _execute_eval_only(self, session, config):
+    from ropt.plan import Plan
+    prev, session.run, self.session = session.run, self, session
+    self.mon.start(config)
+    try:
+        plan = Plan(session.context)
+        plan.run_step(plan.add_step("evaluator"), config=config)
+    finally:
+        self.mon.stop()
+        session.run = prev
+
+
+_Run.execute_eval_only = _execute_eval_only
+
+
 def _child(payload):
-    """Entry point of the fresh interpreter: one quiet run of the configuration."""
+    """Entry point of the fresh interpreter: the reference run of the configuration, and the same workload once more."""
     mon = _Monitor.get()
     out = _run_schedule(payload["spec"], dict(_QUIET, name=payload["name"]), mon)
     out["entry_points"] = mon.entry_points
-    return out
+    again = _run_schedule(payload["spec"], dict(_QUIET, name=payload["name"] + "-second-run"), mon)
+    return {"ref": out, "again": again}
 
 
 def _fresh_start(spec, name, hashseed):
@@ -504,10 +798,9 @@ def _fresh_finish(p):
 def run_impl(case):
     spec = case["spec"]
     mon = _Monitor.get()
-    procs = []
-    if case.get("subprocess", True):        # both fresh interpreters run while this process does the schedules
-        procs = [_fresh_start(spec, "fresh-interpreter", 0),
-                 _fresh_start(spec, "fresh-interpreter-other-hashseed", case["hashseed"])]
+    proc = None
+    if case.get("subprocess", True):        # the fresh interpreter runs while this process does the schedules
+        proc = _fresh_start(spec, "fresh-interpreter-other-hashseed", case["hashseed"])
     runs = []
     try:
         for k, sched in enumerate(case["schedules"]):
@@ -515,12 +808,13 @@ def run_impl(case):
             out["g0"] = k + 1
             runs.append(out)
     except BaseException:
-        for p in procs:
-            p.kill()
+        if proc is not None:
+            proc.kill()
         raise
-    if procs:
-        ref = _fresh_finish(procs[0])
-        runs.insert(0, _fresh_finish(procs[1]))
+    if proc is not None:
+        both = _fresh_finish(proc)
+        ref = both["ref"]
+        runs.insert(0, both["again"])
     else:                                   # all in process
         ref = _run_schedule(spec, dict(_QUIET, name="inproc-reference"), mon)
     other = json.loads(json.dumps(spec))
@@ -551,13 +845,17 @@ def coq_case(case, obs):
 
 
 # ---- oracle: the property text on the recorded runs (no model) --------------------------------------
+def _segments(run):
+    m = run.get("marks") or []
+    return [run["entries"][a:b] for a, b in zip(m, m[1:])]
+
+
 def oracle(case, obs):
     ref = obs["ref"]
-    if ref["touches"]:
-        return {"clause": "global-generator-touched", "detail": {"schedule": ref["name"], "by": ref["touch_names"]}}
-    for r in obs["runs"]:
+    for r in [ref] + obs["runs"]:
         if r["touches"]:
-            return {"clause": "global-generator-touched", "detail": {"schedule": r["name"], "by": r["touch_names"]}}
+            clause = "table-state-written" if all(t.startswith("table-written") for t in r["touch_names"]) else "global-generator-touched"
+            return {"clause": clause, "detail": {"schedule": r["name"], "by": r["touch_names"]}}
     if obs["other_seed"]["touches"]:
         return {"clause": "global-generator-touched", "detail": {"schedule": "other-seed"}}
     for r in obs["runs"]:
@@ -571,21 +869,36 @@ def oracle(case, obs):
                                                                    "lengths": [len(a), len(b)]}}
         if r["exit"] != ref["exit"]:
             return {"clause": "exit-code-differs", "detail": {"schedule": r["name"], "reference": ref["exit_name"], "got": r["exit_name"]}}
+    # two runs of one configuration inside one run: the optimizer step that is executed twice (same step object, same
+    # configuration object, same start) must make identical requests and deliver identical results both times
+    if case["spec"].get("workload") == "opt-eval-opt":
+        for r in [ref] + obs["runs"]:
+            seg = _segments(r)
+            if len(seg) >= 3:
+                first = [(e[0], e[2] if e[0] == "C" else "", e[3]) for e in seg[0]]
+                again = [(e[0], e[2] if e[0] == "C" else "", e[3]) for e in seg[2]]
+                if first != again:
+                    return {"clause": "same-step-run-twice-differs", "detail": {"schedule": r["name"], "lengths": [len(first), len(again)]}}
     if ref["pert"] is not None and obs["other_seed"]["pert"] == ref["pert"]:
         return {"clause": "seed-does-not-change-perturbations", "detail": {"seed": case["spec"]["seed"]}}
+    if ref["pert"] is None:
+        return {"clause": "no-perturbation-was-drawn", "detail": {"workload": case["spec"].get("workload")}}
     return None
 
 
 def nontrivial(case, obs):
-    calls = sum(1 for e in obs["ref"]["entries"] if e[0] == "C")
-    return calls >= 3 and len(obs["runs"]) >= 4
+    calls = [e for e in obs["ref"]["entries"] if e[0] == "C"]
+    return len(calls) >= 3 and sum(1 for e in calls if e[1]) >= 2 and len(obs["runs"]) >= 8
 
 
 def features(case, obs):
     s = case["spec"]
-    return {"method": s["method"], "samplers": "+".join(x["method"] + ("*" if x["shared"] else "") + ("{opt}" if "options" in x else "") for x in s["samplers"]),
-            "perturbed_calls": min(3, sum(1 for e in obs["ref"]["entries"] if e[0] == "C" and e[1])),
-            "calls": min(12, sum(1 for e in obs["ref"]["entries"] if e[0] == "C")),
+    return {"method": s["method"], "workload": s.get("workload", "single"),
+            "samplers": "+".join(x["method"] + ("*" if x["shared"] else "") + ("{opt}" if "options" in x else "") for x in s["samplers"]),
+            "n_samplers": len(s["samplers"]),
+            "unused_sampler": s["sampler_idx"] is not None and len(set(i for i in s["sampler_idx"] if i >= 0)) < len(s["samplers"]),
+            "perturbed_calls": min(4, sum(1 for e in obs["ref"]["entries"] if e[0] == "C" and e[1])),
+            "calls": min(40, 4 * (sum(1 for e in obs["ref"]["entries"] if e[0] == "C") // 4)),
             "filter": s["filter"], "estimator": s["estimator"], "mask": s["mask"] is not None,
             "exit": obs["ref"]["exit_name"], "schedules": len(obs["runs"]), "seed_tuple": isinstance(s["seed"], list)}
 
@@ -599,6 +912,8 @@ def shrink(case):
         for k in range(len(case["schedules"])):
             yield {**case, "schedules": [case["schedules"][k]]}
     s = case["spec"]
+    if s.get("workload", "single") != "single":
+        yield {**case, "spec": {**s, "workload": "single"}}
     if len(s["samplers"]) > 1:
         yield {**case, "spec": {**s, "samplers": s["samplers"][:1], "sampler_idx": None}}
     for key, val in (("filter", None), ("estimator", None), ("mask", None), ("merge", False), ("split", False), ("constraint", False)):
